@@ -72,6 +72,7 @@ fn main() {
             "C13" => nqverif::c13::replay(case),
             "C14" => nqverif::c14::replay(case),
             "C16" => nqverif::c16::replay(case),
+            "C18" => nqverif::c18::replay(case),
             "C19" => nqverif::c19::replay(case),
             _ => {
                 println!("{}", serde_json::to_string_pretty(case).unwrap());
@@ -96,6 +97,7 @@ fn main() {
         "C13" => nqverif::c13::run(&args),
         "C14" => nqverif::c14::run(&args),
         "C16" => nqverif::c16::run(&args),
+        "C18" => nqverif::c18::run(&args),
         "C19" => nqverif::c19::run(&args),
         _ => {
             eprintln!("MACHINERY unknown property {prop}");
